@@ -59,6 +59,7 @@ fn main() {
         "C04" => c04::run(tier, replay),
         "C05" => c05::run(tier, replay),
         "C06" => c06::run(tier, replay),
+        "c06-coop" => c06::child_coop(args[2].parse().unwrap_or(600)),
         "C07" => c07::run(tier, replay),
         "C08" => c08::run(tier, replay),
         "C09" => c09::run(tier, replay),
